@@ -1,11 +1,11 @@
 #!/usr/bin/env python3
 """Run the repository's pinned test suite with the verification guard OFF and compare the
 set of passing tests with BASELINE.json's stable_pass. Exit 0 iff every stable test passes."""
-import json, re, subprocess, sys
+import json, os, re, subprocess, sys
 base = json.load(open("/root/.vp/BASELINE.json"))
 stable = set(base["stable_pass"])
 p = subprocess.run(["cargo", "test", "--workspace", "--no-fail-fast", "--offline"],
-                   cwd="/repo", stdout=subprocess.PIPE, stderr=subprocess.STDOUT, text=True)
+                   cwd=os.environ.get("REPO_DIR", "/repo"), stdout=subprocess.PIPE, stderr=subprocess.STDOUT, text=True)
 prefix = None
 passed, failed = set(), set()
 for line in p.stdout.splitlines():
@@ -33,7 +33,7 @@ for t in missing:
     parts = t.split("::")
     if len(parts) >= 3 and parts[1] == "main":
         name = "::".join(parts[2:])
-        q = subprocess.run(["cargo", "test", "--offline", "--test", parts[1], name, "--", "--exact"], cwd="/repo",
+        q = subprocess.run(["cargo", "test", "--offline", "--test", parts[1], name, "--", "--exact"], cwd=os.environ.get("REPO_DIR", "/repo"),
                            stdout=subprocess.PIPE, stderr=subprocess.STDOUT, text=True)
         if re.search(r"test %s ... ok" % re.escape(name), q.stdout):
             passed.add(t)
